@@ -457,10 +457,15 @@ pub fn spawn_tool(args: &[String], stdin: &[u8], env: &[(String, String)], cwd: 
         c.current_dir(d);
     }
     let mut child = c.spawn().expect("spawn cfn-guard binary (run ./setup.sh first)");
-    {
+    // stdin is fed from a thread of its own: a child that never reads it (or writes a lot before
+    // it does) must not block the harness
+    let t_in = {
         let mut si = child.stdin.take().unwrap();
-        let _ = si.write_all(stdin);
-    }
+        let bytes = stdin.to_vec();
+        std::thread::spawn(move || {
+            let _ = si.write_all(&bytes);
+        })
+    };
     let mut so = child.stdout.take().unwrap();
     let mut se = child.stderr.take().unwrap();
     let t_out = std::thread::spawn(move || {
@@ -489,6 +494,7 @@ pub fn spawn_tool(args: &[String], stdin: &[u8], env: &[(String, String)], cwd: 
             Err(_) => break child.wait().expect("wait"),
         }
     };
+    let _ = t_in.join();
     Proc { status: st.code(), signal: st.signal(), out: t_out.join().unwrap(), err: t_err.join().unwrap(), timed_out }
 }
 
